@@ -605,6 +605,10 @@ PROPS['C14']['rules'] += [R6.rule_file_ids, R6.rule_filter_order]
 PROPS['C17']['rules'] += [R6.rule_errmsg_repr, R6.rule_adjacency_header]
 PROPS['C19']['rules'] += [R6.rule_reduce_all, R6.rule_export_asis]
 PROPS['C09']['rules'] += [R6.rule_value_buffer_dtype]
+PROPS['C16']['rules'] += [R6.rule_raw_format]
+PROPS['C17']['rules'] += [R6.rule_raw_format]
+PROPS['C02']['rules'] += [R6.rule_scatter]
+PROPS['C06']['rules'] += [R6.rule_filtered_extreme, R6.rule_scatter]
 for _pid in ('C05', 'C16', 'C19'):
     PROPS[_pid]['rules'] += [R6.rule_searchsorted_needs_sorted]
 PROPS['C03']['rules'] += [R6.rule_seek_offsets]
